@@ -77,6 +77,13 @@ CHECKS = {
         "Reading of the statement recorded in the evidence assumptions (calibration factors also multiply function values). Reference in mc/refsim.py.",
         "5/C06",
     ),
+    "C07": (
+        "model_checking",
+        "bounded exhaustive enumeration of characteristic families x entered-quantity subsets x data vectors x calibration factors on the real initialisation; accept/refuse oracle at index 0 and characteristic-consistency invariant in every state",
+        "Every family of up to 3 characteristics over 3 compartments (+ an initialised junction), every subset of entered quantities and every data vector of the alphabet is passed to the real build; the outcome must be the dedicated refusal or a start state reproducing all entered quantities, and every time index of the run is checked for characteristic consistency.",
+        "Tolerance band (0, 1e-5) for implied negative compartments is outside the alphabet (see evidence assumptions).",
+        "5/C07",
+    ),
 }
 
 PENDING_REASON = "check not built yet in this session (see DESIGN.md section 8 for the build order); no claim is made"
